@@ -6,7 +6,9 @@ import c11lib as L
 FMT = ("see lean/LitexModel/Timeout/Num.lean: wishbone shared = per master (cyc stb adr) then per slave (ack err dat_r); "
        "AXI shared = per master (awv awa wv br), per slave (awr wr bv bresp), per master (arv ara rr), "
        "per slave (arr rv rresp rdata rlast); timeout alone = the watched bus signals; WaitTimer = wait; "
-       "bus error counter = bus_error")
+       "bus error counter = bus_error; "
+       "+SoCController instances: the interconnect's letter [then per master awid awlen wlast arid arlen, per slave bid rid]; "
+       "outputs: the interconnect's, [per slave awid awlen wlast arid arlen, per master bid rid,] bus_errors")
 
 F_XBAR = "C11-crossbar-timeout-ignored"
 F_RESP = "C11-axi-response-phase-unwatched"
@@ -113,6 +115,26 @@ def jobs(tier):
         AX(True, 2, 2, 3, "r", m_parts=[(0, 0, 1), (1, 0, 1), (1, 16, 0), (1, 32, 1)],
            s_parts=[(0, 0, 0, 0, 0), (1, 0, 0, 0, 0), (0, 1, 1, 0x5a, 0), (0, 1, 1, 0x5a, 1)])
 
+
+    # ---- SoC glue: interconnect + SoCController.bus_errors wired as SoC.finalize does (+ AXI ids/len/last pass-through).
+    # The counter is preloaded just below saturation so that the reachable product stays finite (it saturates).
+    SAT = 2 ** 32 - 1
+    A(lambda: L.WbSharedInst(1, 1, 2, soc_init=SAT - 2, alphabet=L.wb_alphabet(1, 1, 1)))
+    A(lambda: L.WbSharedInst(2, 1, 1, soc_init=SAT - 1, alphabet=L.wb_alphabet(2, 1, 1, s_parts=[(0, 0, 0), (1, 0, 0xa5)])))
+    if not quick:
+        A(lambda: L.WbSharedInst(2, 2, 3, soc_init=SAT - 3, reg=True, alphabet=L.wb_alphabet(2, 2, 1, s_parts=[(0, 0, 0), (1, 0, 0xa5)])))
+
+    def AXS(full, n, k, t, init, scale=1.0):
+        alpha = L.ax_soc_alphabet(n, k, 4, full)
+        A(lambda: L.AxSharedInst(full, n, k, t, alphabet=alpha, soc_init=init),
+          max_states=max(30, int(budget * scale) // len(alpha)))
+    AXS(True, 1, 1, 1, SAT - 2)
+    AXS(False, 1, 1, 2, SAT - 1, scale=0.5)
+    if not quick:
+        AXS(True, 1, 1, 3, SAT - 2)
+        AXS(True, 2, 1, 2, SAT - 2)
+        AXS(True, 1, 2, 2, SAT - 1)
+
     # ---- mode B: realistic sizes, t in {16, 100, 128}
     B(lambda: L.WaitTimerInst(100))
     B(lambda: L.WaitTimerInst(1000), cycles=20000 if quick else 200000)
@@ -140,6 +162,11 @@ def jobs(tier):
     B(lambda: L.AxSharedInst(False, 3, 2, 16, dw=64))
     B(lambda: L.AxSharedInst(False, 2, 2, 16, dw=32, kind="xbar"), cycles=1500 if quick else 15000)
     B(lambda: L.AxSharedInst(True, 2, 2, 16, dw=32, kind="xbar"), cycles=1500 if quick else 15000)
+    B(lambda: L.WbSharedInst(2, 2, 16, dw=16, sh=4, soc_init=0))
+    B(lambda: L.WbSharedInst(3, 2, 7, dw=8, sh=4, soc_init=2 ** 32 - 20))
+    B(lambda: L.AxSharedInst(True, 2, 2, 7, dw=16, soc_init=0))
+    B(lambda: L.AxSharedInst(True, 2, 2, 5, dw=8, soc_init=2 ** 32 - 12))
+    B(lambda: L.AxSharedInst(False, 2, 2, 16, dw=16, soc_init=0))
     return J
 
 
